@@ -81,6 +81,8 @@ struct World {
     value: Vec<u8>,
     /// every (key, message, signature) triple the harness knows to verify
     valid: Vec<(Vec<u8>, Vec<u8>, Vec<u8>)>,
+    /// the signature of the genuine item served last
+    last_genuine: Option<[u8; 64]>,
 }
 
 impl World {
@@ -185,10 +187,16 @@ fn craft(r: &mut Rng, w: &mut World, idx: usize) -> Resp {
         _ => {
             let seq = 1 + r.below(5) as i64;
             let v = if r.chance(1, 2) { w.value.clone() } else { format!("v{}", r.below(3)).into_bytes() };
-            let resp = match r.below(12) {
+            let resp = match r.below(14) {
                 0 | 1 | 2 | 3 => {
                     let sig = sign_item(&w.sk, seq, &v, salt.as_deref());
+                    w.last_genuine = Some(sig);
                     Resp::Mut { k: pk, v: v.clone(), seq, sig }
+                }
+                11 | 12 if w.last_genuine.is_some() => {
+                    // the key and signature of the genuine item served last, around other content
+                    let sig = w.last_genuine.unwrap();
+                    Resp::Mut { k: pk, v: b"replayed signature".to_vec(), seq: if r.chance(1, 2) { seq } else { i64::MAX }, sig }
                 }
                 4 => {
                     // valid signature under a different key (the item of somebody else)
@@ -377,6 +385,11 @@ impl Caller {
 }
 
 pub fn get_case(r: &mut Rng, kind: u8, n: usize) -> String {
+    get_case_x(r, kind, n, false).0
+}
+
+/// returns the case and how many items the second caller was handed
+pub fn get_case_x(r: &mut Rng, kind: u8, n: usize, force_empty_pair: bool) -> (String, usize) {
     let mut s = Scn::new(r, n, false, Default::default());
     let sk = key(r);
     let other_sk = key(r);
@@ -398,8 +411,61 @@ pub fn get_case(r: &mut Rng, kind: u8, n: usize) -> String {
         }
         _ => *MutableItem::target_from_key(&sk.verifying_key().to_bytes(), salt.as_deref()).as_bytes(),
     };
-    let mut w = World { kind, target, salt: if kind == 3 { salt } else { None }, sk, other_sk, value, valid: Vec::new() };
+    // sometimes: two salts longer than 64 bytes that share their first 64 bytes; the second caller asks for the other one
+    let long_pair: Option<(Vec<u8>, Vec<u8>)> = if kind == 3 && r.chance(1, 3) {
+        let prefix: Vec<u8> = (0..64).map(|_| r.byte()).collect();
+        let mut a = prefix.clone();
+        a.extend_from_slice(b"-first caller");
+        let mut b = prefix;
+        b.extend_from_slice(b"-second caller");
+        Some((a, b))
+    } else {
+        None
+    };
+    // or: no salt against the empty salt (one target, different signed bytes), in either order
+    let empty_pair: Option<bool> = if kind == 3 && long_pair.is_none() && (force_empty_pair || r.chance(1, 6)) { Some(r.chance(1, 2)) } else { None };
+    let (salt, target) = match &empty_pair {
+        Some(first_has_none) => {
+            let sa: Option<Vec<u8>> = if *first_has_none { None } else { Some(Vec::new()) };
+            let t = *MutableItem::target_from_key(&sk.verifying_key().to_bytes(), sa.as_deref()).as_bytes();
+            (sa, t)
+        }
+        None => (salt, target),
+    };
+    let (salt, target) = match &long_pair {
+        Some((a, _)) => (Some(a.clone()), *MutableItem::target_from_key(&sk.verifying_key().to_bytes(), Some(a)).as_bytes()),
+        None => (salt, target),
+    };
+    let mut w = World { kind, target, salt: if kind == 3 { salt } else { None }, sk, other_sk, value, valid: Vec::new(), last_genuine: None };
+    // the second caller's world when it asks for the other salt: its own target (as the API computes it), its own salt
+    let w2: Option<World> = long_pair.as_ref().map(|(_, b)| World {
+        kind,
+        target: *MutableItem::target_from_key(&w.sk.verifying_key().to_bytes(), Some(b)).as_bytes(),
+        salt: Some(b.clone()),
+        sk: w.sk.clone(),
+        other_sk: w.other_sk.clone(),
+        value: w.value.clone(),
+        valid: Vec::new(),
+        last_genuine: None,
+    });
+    let w2: Option<World> = match (&w2, &empty_pair) {
+        (None, Some(first_has_none)) => {
+            let sb: Option<Vec<u8>> = if *first_has_none { Some(Vec::new()) } else { None };
+            Some(World {
+                kind,
+                target: *MutableItem::target_from_key(&w.sk.verifying_key().to_bytes(), sb.as_deref()).as_bytes(),
+                salt: sb,
+                sk: w.sk.clone(),
+                other_sk: w.other_sk.clone(),
+                value: w.value.clone(),
+                valid: Vec::new(),
+                last_genuine: None,
+            })
+        }
+        _ => w2,
+    };
     let mut first = Caller::start(&mut s, &w);
+    let main_target = w.target;
     let mut joiner: Option<Caller> = None;
     let join_after = r.below(n as u64) as usize;
     let mut processed: Vec<Resp> = Vec::new();
@@ -412,7 +478,9 @@ pub fn get_case(r: &mut Rng, kind: u8, n: usize) -> String {
                 Some(q) => q,
                 None => return Reply::Silent,
             };
-            match req.request_type {
+            match &req.request_type {
+                // a lookup for another target (the second caller's own, when it asks for the other salt) finds nothing
+                RequestTypeSpecific::GetValue(a) if *a.target.as_bytes() != main_target => s.honest(inc),
                 RequestTypeSpecific::GetPeers(_) | RequestTypeSpecific::GetSignedPeers(_) | RequestTypeSpecific::GetValue(_) => {
                     newq.push((inc.peer, inc.from, inc.msg.transaction_id));
                     Reply::Silent
@@ -426,7 +494,7 @@ pub fn get_case(r: &mut Rng, kind: u8, n: usize) -> String {
             j.collect();
         }
         if joiner.is_none() && processed.len() >= join_after && s.snap().iterative_queries > 0 {
-            joiner = Some(Caller::start(&mut s, &w));
+            joiner = Some(Caller::start(&mut s, w2.as_ref().unwrap_or(&w)));
         }
         if !queue.is_empty() {
             let i = r.below(queue.len() as u64) as usize;
@@ -440,7 +508,8 @@ pub fn get_case(r: &mut Rng, kind: u8, n: usize) -> String {
         }
     }
     first.collect();
-    let joined = joiner.is_some();
+    // asking for another salt is another lookup: nothing of this one is for that caller
+    let joined = joiner.is_some() && w2.is_none();
     let jgot: Vec<Got> = match joiner {
         Some(mut j) => {
             j.collect();
@@ -448,9 +517,10 @@ pub fn get_case(r: &mut Rng, kind: u8, n: usize) -> String {
         }
         None => Vec::new(),
     };
-    let auth: Vec<bool> = first.got.iter().chain(jgot.iter()).map(|g| g.authentic(&w)).collect();
-    format!(
-        "KGet {} {} {} [{}] [{}] [{}] {} [{}] [{}]",
+    let n_joiner = jgot.len();
+    let auth: Vec<bool> = first.got.iter().map(|g| g.authentic(&w)).chain(jgot.iter().map(|g| g.authentic(w2.as_ref().unwrap_or(&w)))).collect();
+    (format!(
+        "KGet {} {} {} [{}] [{}] [{}] {} [{}] [{}] {}",
         ["GPeers", "GSigned", "GImm", "GMut"][kind as usize],
         n_hex(&w.target),
         obl(&w.salt),
@@ -459,13 +529,28 @@ pub fn get_case(r: &mut Rng, kind: u8, n: usize) -> String {
         first.got.iter().map(|g| g.coq()).collect::<Vec<_>>().join("; "),
         boolean(joined),
         jgot.iter().map(|g| g.coq()).collect::<Vec<_>>().join("; "),
-        auth.iter().map(|b| boolean(*b)).collect::<Vec<_>>().join(";")
-    )
+        auth.iter().map(|b| boolean(*b)).collect::<Vec<_>>().join(";"),
+        match &w2 {
+            Some(x) => format!("(Some {})", obl(&x.salt)),
+            None => "None".into(),
+        }
+    ), n_joiner)
 }
 
 pub fn generate(seed: u64, scale: usize) -> Cases {
     let mut r = Rng::new(seed ^ 0xC02);
     let mut o = Cases::new();
+    // corpus, run first: the known finding F28 (no salt against the empty salt: one target, one lookup)
+    for _ in 0..2 {
+        for _attempt in 0..12 {
+            let mut rr = r.fork();
+            let (case, handed) = get_case_x(&mut rr, 3, 6, true);
+            if handed > 0 {
+                o.push("corpus-empty-salt-joins-no-salt-lookup", case);
+                break;
+            }
+        }
+    }
     for i in 0..(24 * scale) {
         let kind = [3u8, 3, 2, 1, 3, 2, 1, 0][i % 8];
         let mut rr = r.fork();
